@@ -19,6 +19,18 @@ Theorem C04_append_flushes_whole_record :
 Proof. exact append_flushes_whole_record. Qed.
 Print Assumptions C04_append_flushes_whole_record.
 
+(* An encoder that fails half-way (append returns its error before the flush) leaves the
+   bytes it wrote pending; the next successful append stores its record whole and contiguous
+   right after them - nothing of it is held back, nothing written before is disturbed. *)
+Theorem C04_failed_encode_then_append :
+  forall c st cs r s1 st2,
+    write_chunks c cs st = Ok s1 ->
+    append_enc_fails c st cs = Err s1 /\
+    (append c s1 r = Ok st2 ->
+     disk st2 = disk st ++ buf st ++ rec_bytes cs ++ rec_bytes r /\ buf st2 = []).
+Proof. exact failed_encode_then_append. Qed.
+Print Assumptions C04_failed_encode_then_append.
+
 (* If the OS reports no error (short writes allowed) append cannot fail. *)
 Theorem C04_append_succeeds_without_os_error :
   forall c st cs, orc_ok (orc st) = true ->
